@@ -20,6 +20,7 @@ MUTS.append(("S4 seeded C09-c: collect_fields._merge moves a re-selected key to 
 MUTS.append(("S5 seeded C09-d: resolve_field skips unwrap_value for the default resolver", None, "/verif/seeded/C09-d/patch.diff", None, ["C09", "C08"]))
 MUTS.append(("S6 seeded C09-e: _copy_error uses copy.copy (re-calls the constructor)", None, "/verif/seeded/C09-e/patch.diff", None, ["C09", "C08"]))
 MUTS.append(("S7 seeded C08-e: AsyncIORuntime.wrap_callable goes through self.submit(func, ...)", None, "/verif/seeded/C08-e/patch.diff", None, ["C08"]))
+MUTS.append(("R1 revert of 60b475c (list item completion failure waits for started items)", None, "-R:/verif/fixes/C09-01-list-item-failure-waits-for-started-items.patch", None, ["C09", "C08"]))
 MUTS.append(("S2 seeded C09-a: execute() dispatches on root_type identity", None, "/verif/seeded/C09-a/patch.diff", None, ["C09"]))
 only = sys.argv[1:]
 env = dict(os.environ, PYGQL_REPO=WT)
@@ -27,7 +28,7 @@ for name, f, old, new, props in MUTS:
     if only and name.split()[0] not in only: continue
     subprocess.run(["git","-C",WT,"checkout","-q","--","."],check=True)
     if f is None:
-        subprocess.run(["git","-C",WT,"apply",old],check=True)
+        subprocess.run(["git","-C",WT,"apply"] + (["-R", old[3:]] if old.startswith("-R:") else [old]),check=True)
     else:
         p=os.path.join(WT,"src/py_gql",f); s=open(p).read(); assert s.count(old)>=1,(name,"pattern not found"); open(p,"w").write(s.replace(old,new,1))
     for P in props:
